@@ -40,6 +40,15 @@ CHECKS = {
    text="TufStore.tla unfolds the datastore traffic of one update cycle into its file-system calls (35 on this tree; the sequence is read from an LD_PRELOAD shim and compared with the model) and enables a crash after any call and a failure of any open/write/rename; TLC checks RollbackSurvives and NoLockout over every (fault, follow-up repository) pair. Every TLC case is executed for real: cycle 1 in-process, the interrupted cycle in a child process under the shim (SIGKILL before/after the n-th call, ENOSPC, EIO), then the follow-up cycle; the property is evaluated on the observed datastore and result.",
    note="Trusted: TLC; the shim sees libc-level calls only (a rename issued as a raw syscall by tempfile::persist is bracketed by the calls around it); process death and failing calls, not power loss. Cycle without delegations, enforcement on.",
    technique="TLA+ model of crash points (TLC exhaustive) + fault injection at every datastore call of the real client"),
+
+ "C06": dict(cat="model_checking", design="5 C06",
+   text="Stream.tla models the pipeline transport -> size cap (signed length) -> digest check -> caller; TLC checks EndsOkImpliesDigest, NeverMoreThanSignedLength, OtherContentErrs, ExactSucceeds over every content variant (flip/truncate at every position, extension, substitution, endless, transport error after every chunk) in every chunking. Every terminal path is replayed through Repository::read_target with a scripted transport for top-level and delegated targets, both consistent_snapshot settings and unit sizes up to 16 KiB; the property is evaluated on the bytes actually handed out, the model's outcome is compared for conformance.",
+   note="Trusted: TLC, digest modelled as identity on content, harness SHA-256. Contents up to 4 units (64 KiB at the largest unit).",
+   technique="TLA+ model (TLC exhaustive) + replay of every behaviour through read_target"),
+ "C08": dict(cat="model_checking", design="5 C08",
+   text="Stream.tla with the save_target consumer (temporary file, rename after a verified end, removal on failure) and an observer between any two steps: TLC checks NoPartialAtDest, FailureChangesNothing, SuccessIsComplete; every path is replayed through Repository::save_target while the transport inspects the destination before every chunk and the directory tree around the output directory is compared before/after. Names.tla transcribes clean_name and the containment check; TLC enumerates every name up to length 5 over a path-significant alphabet and each is saved for real (both prefix modes), plus random names up to length 40.",
+   note="Trusted: TLC; observation points are the moments before each transport chunk is delivered (single-threaded runtime); directories are not counted as files. Target names reach the transport as relative URL references; the harness serves the content under the URL the client derives.",
+   technique="TLA+ models (Stream, Names; TLC exhaustive) + replay through save_target with file-system observation"),
 }
 NA_REASON = "check not built yet in this round (planned, see DESIGN.md section 5); not claimed"
 
